@@ -162,6 +162,7 @@ func c06Setup() []Op {
 		{K: "handle", P: "/posts/author", Ms: []string{"GET"}},
 		{K: "handle", P: "/posts/{id}", Ms: []string{"GET"}},
 		{K: "handle", P: "/t", Ms: []string{"GET"}},
+		{K: "handle", P: "/rx/{id:\\d+}", Ms: []string{"GET"}}, // a regexp parameter nobody has matched or validated yet
 	}
 	for _, c := range "abcdef" {
 		ops = append(ops, Op{K: "handle", P: "/x/" + string(c), Ms: []string{"GET"}})
@@ -197,6 +198,8 @@ var (
 	r10 = conOp{K: "url", Strict: true, P: "/posts/author"} // the node a concurrent Handle(/posts/abc) splits
 	r11 = conOp{K: "url", Strict: true, P: "/x/f"}
 	r12 = conOp{K: "serve", Req: hv.Req{Method: "HEAD", Path: "/posts/author"}}
+	r14 = conOp{K: "serve", Req: hv.Req{Method: "GET", Path: "/rx/7"}}
+	r15 = conOp{K: "url", Strict: true, P: "/rx/{id:\\d+}", Params: map[string]string{"id": "7"}}
 )
 
 func c06Scenarios(quick bool) []scenario {
@@ -238,6 +241,11 @@ func c06Scenarios(quick bool) []scenario {
 		for _, b := range rseq[i:11] {
 			out = append(out, scenario{Name: name(a, b), Cfg: cfg, Setup: setup, Threads: [][]conOp{a, b}, Bound: bound2, Prop: "C06"})
 		}
+	}
+	// ... in particular the first two uses of a regexp parameter (matching, validating), and two strict URLs of
+	// different patterns (anything URL keeps per tree rather than per call)
+	for _, ts := range [][][]conOp{{{r14}, {r14}}, {{r14}, {r15}}, {{r15}, {r15}}, {{r7}, {r11}}, {{r15}, {r7}}, {{r15}, {r10}}, {{w1}, {r14}}, {{w3}, {r15}}} {
+		out = append(out, scenario{Name: name(ts...), Cfg: cfg, Setup: setup, Threads: ts, Bound: bound2, Prop: "C06"})
 	}
 	w3s := [][]conOp{{w1}, {w3}, {w4a}, {w5b}, {w6}}
 	r3s := [][]conOp{{r1}, {r3}, {r4}, {r6}}
